@@ -632,6 +632,15 @@ class BuiltinsMixin:
                 x = x.value
             if x is None or isinstance(x, int):
                 return x
+            if isinstance(x, SV) and x.ty in ("int", "bool"):
+                # a symbolic bound on a sequence of known length n: only the values -n-1 .. n+1 behave differently from each other
+                # (anything beyond clamps like the nearest of them) -> decide by path splitting
+                for c_ in list(range(0, n + 1)) + list(range(-1, -n - 1, -1)):
+                    if self.st.branch(x.z == c_, f"slice bound == {c_}"):
+                        return c_
+                if self.st.branch(x.z > n, "slice bound beyond the end"):
+                    return n + 1
+                return -n - 1
             raise Unsupported("symbolic slice bound on concrete sequence")
         return slice(c(sl.start), c(sl.stop), c(sl.step))
 
